@@ -73,6 +73,8 @@ FAMILIES = {
     "wide_fanout":    ("bbbba", [[], [], [], [], [1, 2, 3, 4]], [5]),
     "svc_and_build_roots": ("sbb", [[], [], [1]], [1, 3]),
     "dup_roots":      ("bb", [[], [1]], [2, 2, 1]),
+    "svc_next_to_build": ("bsbb", [[], [], [2], [1, 3]], [4]),
+    "svc_under_agg_next_to_build": ("bsab", [[], [], [2], [1, 3]], [4]),
 }
 
 def families():
